@@ -140,6 +140,66 @@ theorem emu_dialogue_caps (hostBg : Option (Nat × Nat × Nat)) (e e' : Emu) (rs
   rw [hcaps]
   rfl
 
+/-! ### with `COLORTERM=truecolor` in the environment -/
+
+theorem specCaps_startupReplies_any (o : Opts) (hostBg : Option (Nat × Nat × Nat)) (e : Emu)
+    (pc : Option Int) (hpc : (pc == some 2) = false) :
+    specCaps o (startupReplies hostBg e) pc =
+      { sixels := true, unicodeCore := true, osc11 := e.hasVx && hostBg.isSome, rgb := o.colorterm } := by
+  unfold specCaps
+  rw [hpc]
+  unfold startupReplies replies
+  cases hv : e.hasVx with
+  | false => simp only [Bool.false_eq_true, and_false, if_false]; cases o.colorterm <;> rfl
+  | true =>
+    cases hostBg with
+    | none => simp only [and_self, if_true]; cases o.colorterm <;> rfl
+    | some t =>
+      obtain ⟨r, g, b⟩ := t
+      simp only [and_self, if_true]
+      cases o.colorterm <;> rfl
+
+/-- **The start-up dialogue, every interleaving, whatever `COLORTERM` is**: as `emu_dialogue_caps`
+    without the hypothesis `COLORTERM` unset — `widgets/term` passes its host's environment on to the
+    child, and `COLORTERM=truecolor` makes `New()` post `truecolor` itself. The capability record is
+    `{sixels, unicodeCore, osc11 iff reported, rgb iff COLORTERM says so}`; the renderer's capabilities
+    are `emuCaps` with `rgb := o.colorterm` — the capability sets of `Props/C12Caps.lean`
+    (`emuCaps` / `emuCapsRgb`). Direct colour is implemented by the emulator (`sgr.go`), so also in this
+    case nothing is understood that the emulator does not implement. -/
+theorem emu_dialogue_caps_any (hostBg : Option (Nat × Nat × Nat)) (e e' : Emu) (rs : List Seq)
+    (hq : runQ hostBg e startupQueries = .ok (e', rs))
+    (p : Params) (o : Opts) (henv : o.envUnset = true)
+    (ls : List VaxisModel.Model.Startup.Label) (st : St) (hin : inputsOf ls = rs)
+    (hrun : VaxisModel.Model.Startup.run p o (St.init o) ls = some st)
+    (hready : st.phase = .ready) (hto : st.timedOut = false) (hdrop : st.sys.dropped = 0) :
+    st.sys.vs.caps = { sixels := true, unicodeCore := true, osc11 := e.hasVx && hostBg.isSome, rgb := o.colorterm } ∧
+    ({ rgb := st.sys.vs.caps.rgb, styledUnderlines := st.sys.vs.caps.styledUnderlines,
+       explicitWidth := st.sys.vs.caps.explicitWidth, sync := st.sys.vs.caps.synchronizedUpdate } : Model.Render.Caps) =
+      { C12.emuCaps with rgb := o.colorterm } := by
+  obtain ⟨e1, he1⟩ := run_startup hostBg e
+  rw [hq] at he1
+  have hrs : rs = startupReplies hostBg e := by cases he1; rfl
+  subst hrs
+  have hpi := pinv_run p o ls (St.init o) st (pinv_init o)
+    (by rw [hin]; exact startupReplies_safe p.b64 hostBg e) hrun
+  obtain ⟨A, d, B, hsplit, hd, hA, hcaps⟩ := C07Caps.caps_exact p o ls st hrun hready hto hdrop henv (by
+    intro x hx
+    have := hpi.got x hx
+    omega)
+  rw [hin, startupReplies_split] at hsplit
+  obtain ⟨rA, rd, _⟩ := first_split_unique isDA1 A (preReplies hostBg e) d da1Reply B [] hsplit.symm hd rfl hA (pre_noDA1 hostBg e)
+  have hAd : A ++ [d] = startupReplies hostBg e := by rw [rA, rd]; rfl
+  have hpc : ((st.probeGot.map (·.2)) == some 2) = false := by
+    cases hg : st.probeGot with
+    | none => rfl
+    | some x =>
+      have := hpi.got x hg
+      simp [this]
+  rw [hAd, specCaps_startupReplies_any o hostBg e _ hpc] at hcaps
+  refine ⟨hcaps, ?_⟩
+  rw [hcaps]
+  rfl
+
 /-! ### termination for every interleaving -/
 
 /-- Nothing but a time-out can happen any more: the goroutine cannot step, the probe cannot receive,
@@ -262,6 +322,118 @@ theorem emu_dialogue_completes (hostBg : Option (Nat × Nat × Nat)) (e : Emu)
   obtain ⟨e1, he1⟩ := run_startup hostBg e
   exact ⟨hready, hI.noTO, hI.noDrop,
     (emu_dialogue_caps hostBg e e1 _ he1 p o henv hct ls st hin hrun hready hI.noTO hI.noDrop).1⟩
+
+/-- **Termination for every interleaving, whatever `COLORTERM` is** (`emu_dialogue_completes` without
+    the hypothesis `COLORTERM` unset; the `truecolor` event `New()` posts itself takes one more place
+    in the queue: capacity ≥ 8). -/
+theorem emu_dialogue_completes_any (hostBg : Option (Nat × Nat × Nat)) (e : Emu)
+    (p : Params) (hq : 8 ≤ p.qcap) (hk : VaxisModel.Lemmas.InputLoop.Kinds.safe p.kinds) (hcap : p.cursorCap ≠ 0)
+    (o : Opts) (henv : o.envUnset = true)
+    (ls : List VaxisModel.Model.Startup.Label) (st : St) (hin : inputsOf ls = startupReplies hostBg e)
+    (hnt : ∀ l ∈ ls, isTimeout l = false)
+    (hrun : VaxisModel.Model.Startup.run p o (St.init o) ls = some st) (hquiet : Quiescent p o st) :
+    st.phase = .ready ∧ st.timedOut = false ∧ st.sys.dropped = 0 ∧
+    st.sys.vs.caps = { sixels := true, unicodeCore := true, osc11 := e.hasVx && hostBg.isSome, rgb := o.colorterm } := by
+  have hI0 : LInv p (St.init o) (inputsOf ls ++ []) := by
+    rw [List.append_nil, hin]
+    refine ⟨?_, fun _ => Or.inl ⟨startupReplies_hasCPR hostBg e, rfl⟩, rfl, rfl⟩
+    have := startupReplies_budget hostBg e
+    have hql : (St.init o).sys.queue.length ≤ 1 := by
+      simp only [St.init]; split <;> simp
+    have hpd : (VaxisModel.Lemmas.InputEvents.posted (St.init o).sys.pend).length = 0 := by
+      simp [St.init, VaxisModel.Lemmas.InputEvents.posted]
+    omega
+  have hI := linv_run p o hcap ls (St.init o) st [] hI0
+    (by rw [hin]; exact startupReplies_good p.b64 hostBg e) hnt hrun
+  obtain ⟨q1, q2, q3, q4, q5⟩ := hquiet
+  obtain ⟨k1, k2, k3, k4, k5, k6⟩ := hk
+  -- the goroutine is back at its select
+  have hpend : st.sys.pend = [] := by
+    cases hp : st.sys.pend with
+    | nil => rfl
+    | cons ef rest =>
+      exfalso
+      have hb := hI.budget
+      have hstep : stepEffect p st.sys ef rest = none := by
+        simp only [VaxisModel.Model.Startup.next, liftSys, VaxisModel.Model.InputLoop.next, hp] at q1
+        cases hse : stepEffect p st.sys ef rest with
+        | none => rfl
+        | some x => rw [hse] at q1; simp at q1
+      cases ef with
+      | postB ev =>
+        rw [hp] at hb
+        simp only [VaxisModel.Lemmas.InputEvents.posted, List.length_cons] at hb
+        simp only [stepEffect] at hstep
+        split at hstep
+        · cases hstep
+        · omega
+      | postNB ev =>
+        simp only [stepEffect] at hstep
+        split at hstep <;> cases hstep
+      | sendCursorPos r c =>
+        obtain ⟨b, hb'⟩ := VaxisModel.Lemmas.InputLoop.send1_some p.kinds.cursorPos k1 st.sys.cursorCh.length
+        simp only [stepEffect, hcap, if_false, hb'] at hstep
+        cases b <;> cases hstep
+      | sendSizeDone =>
+        obtain ⟨b, hb'⟩ := VaxisModel.Lemmas.InputLoop.send1_some p.kinds.sizeDone k2 st.sys.sizeDone
+        simp only [stepEffect, hb'] at hstep
+        cases b <;> cases hstep
+      | sendColor v =>
+        obtain ⟨b, hb'⟩ := VaxisModel.Lemmas.InputLoop.send1_some p.kinds.color k3 st.sys.color.length
+        simp only [stepEffect, hb'] at hstep
+        cases b <;> cases hstep
+      | sendFg v =>
+        obtain ⟨b, hb'⟩ := VaxisModel.Lemmas.InputLoop.send1_some p.kinds.fg k4 st.sys.fg.length
+        simp only [stepEffect, hb'] at hstep
+        cases b <;> cases hstep
+      | sendBg v =>
+        obtain ⟨b, hb'⟩ := VaxisModel.Lemmas.InputLoop.send1_some p.kinds.bg k5 st.sys.bg.length
+        simp only [stepEffect, hb'] at hstep
+        cases b <;> cases hstep
+      | sendClipboard v =>
+        simp only [VaxisModel.Model.Startup.next, liftSys, VaxisModel.Model.InputLoop.next, hp, k6, beq_self_eq_true, if_true] at q2
+        cases q2
+  have hins : st.ins = startupReplies hostBg e := by
+    have := VaxisModel.Lemmas.Startup.ins_run p o ls (St.init o) st hrun
+    simpa [St.init, hin] using this
+  have hready : st.phase = .ready := by
+    cases hph : st.phase with
+    | ready => rfl
+    | done =>
+      simp only [VaxisModel.Model.Startup.next, hph, if_true] at q5
+      cases q5
+    | probe =>
+      exfalso
+      rcases hI.probe hph with ⟨ha, _⟩ | ⟨r, c, hm⟩ | hc
+      · simp at ha
+      · rw [hpend] at hm; cases hm
+      · simp only [VaxisModel.Model.Startup.next, hph, if_true] at q3
+        cases hcc : st.sys.cursorCh with
+        | nil => exact hc hcc
+        | cons v t => rw [hcc] at q3; cases q3
+    | loop =>
+      exfalso
+      have hqueue : st.sys.queue = [] := by
+        cases hqq : st.sys.queue with
+        | nil => rfl
+        | cons ev q =>
+          simp only [VaxisModel.Model.Startup.next, hph, if_true, hqq] at q4
+          split at q4 <;> cases q4
+      have hinv := VaxisModel.Lemmas.Startup.inv_run p o ls (St.init o) st (VaxisModel.Lemmas.Startup.inv_init o) hrun
+      have hda := hinv.v.hasDA (Or.inr hph) (by
+        show VaxisModel.Lemmas.Startup.seenDA st.ins = true
+        rw [hins]
+        unfold VaxisModel.Lemmas.Startup.seenDA startupReplies
+        simp only [List.any_append, List.any_cons, List.any_nil, Bool.or_false, Bool.or_eq_true]
+        exact Or.inr rfl)
+      have hnp : (VaxisModel.Lemmas.Startup.view st).np = [] := by
+        show VaxisModel.Lemmas.Startup.np st = []
+        simp [VaxisModel.Lemmas.Startup.np, hqueue, hpend, VaxisModel.Lemmas.InputEvents.posted]
+      rw [hnp] at hda
+      simp at hda
+  obtain ⟨e1, he1⟩ := run_startup hostBg e
+  exact ⟨hready, hI.noTO, hI.noDrop,
+    (emu_dialogue_caps_any hostBg e e1 _ he1 p o henv ls st hin hrun hready hI.noTO hI.noDrop).1⟩
 
 /-! ### the dialogue terminates: a complete run exists, whatever the emulator's state -/
 
